@@ -152,7 +152,10 @@ Proof.
 Qed.
 
 Lemma canonical_key_lower s : to_lower (canonical_key s) = to_lower s.
-Proof. unfold canonical_key. destruct (forallb is_tchar s); [apply canon_go_lower|reflexivity]. Qed.
+Proof.
+  unfold canonical_key, mime_key. destruct (is_pseudo_name s); [apply to_lower_idem|].
+  destruct (forallb is_tchar s); [apply canon_go_lower|reflexivity].
+Qed.
 
 Lemma is_tchar_case b : is_tchar (lower_byte b) = is_tchar b /\ is_tchar (upper_byte b) = is_tchar b.
 Proof. destruct b; vm_compute; split; reflexivity. Qed.
@@ -175,14 +178,34 @@ Proof.
   rewrite IH. now rewrite (proj1 (is_tchar_case c)).
 Qed.
 
+Lemma tchar_not_pseudo s : forallb is_tchar s = true -> is_pseudo_name s = false.
+Proof.
+  destruct s as [|c s]; [reflexivity|]. cbn [forallb is_pseudo_name]. intros H.
+  apply andb_true_iff in H as [H _]. destruct (beqb c colon_b) eqn:E; [|reflexivity].
+  apply beqb_eq in E. subst c. discriminate.
+Qed.
+
 (* header names that are tokens are matched case-insensitively by the order list *)
 Lemma canonical_key_case_insensitive s t :
   forallb is_tchar s = true -> to_lower s = to_lower t -> canonical_key s = canonical_key t.
 Proof.
-  intros Hs H. unfold canonical_key.
+  intros Hs H. unfold canonical_key, mime_key.
   assert (forallb is_tchar t = true) as Ht.
   { rewrite <- forallb_tchar_lower, <- H, forallb_tchar_lower. exact Hs. }
+  rewrite (tchar_not_pseudo s Hs), (tchar_not_pseudo t Ht).
   rewrite Hs, Ht. now apply canon_go_case_insensitive.
+Qed.
+
+(* pseudo-header names are matched case-insensitively too *)
+Lemma canonical_key_pseudo_case_insensitive s t :
+  is_pseudo_name s = true -> to_lower s = to_lower t -> canonical_key s = canonical_key t.
+Proof.
+  intros Hs H. unfold canonical_key.
+  assert (is_pseudo_name t = true) as Ht.
+  { destruct s as [|c s]; [discriminate|]. destruct t as [|d t]; [discriminate|].
+    change (to_lower (?x :: ?y)) with (lower_byte x :: to_lower y) in H. injection H as Hc _.
+    cbn in *. apply beqb_eq in Hs. subst c. revert Hc. clear. destruct d; vm_compute; congruence. }
+  now rewrite Hs, Ht.
 Qed.
 
 (* ---------- rank ---------- *)
